@@ -52,7 +52,7 @@ def sh(cmd, **kw):
     return subprocess.run(cmd, stdout=subprocess.PIPE, stderr=subprocess.STDOUT, text=True, **kw)
 
 
-def tree_hash():
+def tree_hash(name=None):
     """Hash of everything the result depends on: /repo working tree and /verif sources."""
     h = hashlib.sha256()
     repo = vlib.REPO
@@ -67,6 +67,7 @@ def tree_hash():
                 h.update(fh.read())
         except OSError:
             pass
+    ledger = (name or "").startswith("ledger")
     for sub in ("harness", "spec", "lib", "checks"):
         base = os.path.join(vlib.VERIF, sub)
         for root, dirs, files in os.walk(base):
@@ -74,15 +75,37 @@ def tree_hash():
             for f in sorted(files):
                 if f.endswith((".go", ".tla", ".cfg", ".py", ".mod", ".json", ".sh")):
                     p = os.path.join(root, f)
+                    if ledger and not _ledger_input(os.path.relpath(p, vlib.VERIF)):
+                        continue
                     h.update(p.encode())
                     with open(p, "rb") as fh:
                         h.update(fh.read())
     return h.hexdigest()[:24]
 
 
+_LEDGER_DIRS = ("harness/drive/", "harness/pgmodel/", "harness/stack/", "harness/deps/", "harness/cmd/vh-ledger/")
+_LEDGER_SPECS = ("Ledger", "TraceLedger", "MC_Ledger", "LedgerPG", "MC_LedgerPG", "AsyncBlocks")
+_LEDGER_FILES = ("harness/go.mod", "lib/vlib.py", "lib/tlcrun.py", "checks/ledger_common.py", "checks/conc_common.py")
+
+
+def _ledger_input(rel):
+    """Files the sequential / concurrent ledger pipelines depend on (their cache is not invalidated by the
+    sources of the other engines)."""
+    if rel.startswith(_LEDGER_DIRS) or rel in _LEDGER_FILES:
+        return True
+    if rel.startswith("spec/"):
+        base = os.path.basename(rel)
+        return any(base == s + ".tla" or base.startswith(s + ".") or base.startswith(s + "_") for s in _LEDGER_SPECS)
+    return False
+
+
 def cached(name, tier, seed, build):
     """Return the directory holding the result of `build(dir)`, computing it at most once per input state."""
-    key = "%s-%s-%s-%s" % (name, tier, seed, tree_hash())
+    try:
+        th = tree_hash(name)
+    except TypeError:   # a caller installed its own zero-argument hash
+        th = tree_hash()
+    key = "%s-%s-%s-%s" % (name, tier, seed, th)
     d = os.path.join(CACHE, key)
     done = os.path.join(d, "DONE")
     if os.environ.get("VERIF_NOCACHE") or not os.path.exists(done):
